@@ -203,6 +203,184 @@ def instantiate(qs, ints, strs, cap=6000):
     return out
 
 
+# ---------------------------------------------------------------------------- trigger-driven instantiation
+_TRIG = {}
+_E_FAILS = {}
+USE_TRIGGER_STAGE = False
+
+
+def _peel(arr, out):
+    """array terms reachable through store / ite chains"""
+    stack = [arr]
+    while stack:
+        a = stack.pop()
+        i = a.get_id()
+        if i in out:
+            continue
+        out[i] = a
+        if z3.is_app(a):
+            k = a.decl().kind()
+            if k == z3.Z3_OP_STORE:
+                stack.append(a.arg(0))
+            elif k == z3.Z3_OP_ITE:
+                stack.append(a.arg(1))
+                stack.append(a.arg(2))
+
+
+def _offset(idx, nvars):
+    """idx = var_j + c  ->  (j, c) ; var_j -> (j, 0) ; else None"""
+    if z3.is_var(idx):
+        return z3.get_var_index(idx), 0
+    if z3.is_app(idx) and idx.decl().kind() == z3.Z3_OP_ADD and idx.num_args() == 2:
+        a, b = idx.arg(0), idx.arg(1)
+        if z3.is_var(a) and z3.is_int_value(b):
+            return z3.get_var_index(a), b.as_long()
+        if z3.is_var(b) and z3.is_int_value(a):
+            return z3.get_var_index(b), a.as_long()
+    if z3.is_app(idx) and idx.decl().kind() == z3.Z3_OP_SUB and idx.num_args() == 2:
+        a, b = idx.arg(0), idx.arg(1)
+        if z3.is_var(a) and z3.is_int_value(b):
+            return z3.get_var_index(a), -b.as_long()
+    return None
+
+
+def triggers(q):
+    """per bound variable: [(key, offset)] where key identifies an array term or an
+    uninterpreted function applied to (variable + offset)"""
+    r = _TRIG.get(q.get_id())
+    if r is not None:
+        return r[0]
+    n = q.num_vars()
+    trig = [set() for _ in range(n)]
+    seen = set()
+    stack = [q.body()]
+    while stack:
+        t = stack.pop()
+        if t.get_id() in seen:
+            continue
+        seen.add(t.get_id())
+        if not z3.is_app(t):
+            continue
+        k = t.decl().kind()
+        ch = t.children()
+        if k == z3.Z3_OP_SELECT:
+            off = _offset(ch[1], n)
+            if off is not None:
+                arrs = {}
+                _peel(ch[0], arrs)
+                for aid, a in arrs.items():
+                    if not _has_var(a):
+                        trig[n - 1 - off[0]].add((("arr", aid), off[1]))
+        elif k == z3.Z3_OP_UNINTERPRETED and ch:
+            for pos, a in enumerate(ch):
+                off = _offset(a, n) if a.sort() == INT else None
+                if off is not None:
+                    trig[n - 1 - off[0]].add((("fn", t.decl().name(), pos), off[1]))
+        stack.extend(ch)
+    _TRIG[q.get_id()] = (trig, q)
+    return trig
+
+
+_OCC = {}
+
+
+def occurrences(f):
+    """ground formula -> {key: {term id: term}} for select indices / function args"""
+    r = _OCC.get(f.get_id())
+    if r is not None:
+        return r[0]
+    occ = {}
+    seen = set()
+    stack = [f]
+    while stack:
+        t = stack.pop()
+        if t.get_id() in seen:
+            continue
+        seen.add(t.get_id())
+        if z3.is_quantifier(t) or not z3.is_app(t):
+            continue
+        k = t.decl().kind()
+        ch = t.children()
+        if k == z3.Z3_OP_SELECT and ch[1].sort() == INT:
+            arrs = {}
+            _peel(ch[0], arrs)
+            for aid in arrs:
+                occ.setdefault(("arr", aid), {})[ch[1].get_id()] = ch[1]
+        elif k == z3.Z3_OP_UNINTERPRETED and ch:
+            for pos, a in enumerate(ch):
+                if a.sort() == INT:
+                    occ.setdefault(("fn", t.decl().name(), pos), {})[a.get_id()] = a
+        stack.extend(ch)
+    _OCC[f.get_id()] = (occ, f)
+    return occ
+
+
+def trigger_instantiate(quant, ground, rounds=2, cap=1500, per_clause=64):
+    occ = {}
+
+    def absorb(fs):
+        for f in fs:
+            for k, d in occurrences(f).items():
+                occ.setdefault(k, {}).update(d)
+
+    absorb(ground)
+    done = set()
+    out = []
+    frontier = list(ground)
+    for rnd in range(rounds):
+        new = []
+        for q in quant:
+            trig = triggers(q)
+            n = q.num_vars()
+            if any(q.var_sort(j) != INT for j in range(n)):
+                continue
+            cands = []
+            ok = True
+            for j in range(n):
+                c = {}
+                for key, off in trig[j]:
+                    for tid, t in occ.get(key, {}).items():
+                        tt = t if off == 0 else z3.simplify(t - off)
+                        c[tt.get_id()] = tt
+                if not c:
+                    ok = False
+                    break
+                cands.append(list(c.values()))
+            if not ok:
+                continue
+            total = 1
+            for c in cands:
+                total *= len(c)
+            if total > per_clause:
+                # keep the terms of the obligation itself (first round) in priority
+                cands = [c[: max(1, int(per_clause ** (1.0 / n)))] for c in cands]
+            qid = q.get_id()
+            body = None
+            for tup in itertools.product(*cands):
+                key = (qid,) + tuple(t.get_id() for t in tup)
+                if key in done:
+                    continue
+                done.add(key)
+                r = _INST_CACHE.get(key)
+                if r is None:
+                    if body is None:
+                        body = q.body()
+                    r = z3.substitute_vars(body, *reversed(tup))
+                    _INST_CACHE[key] = r
+                new.append(r)
+                if len(out) + len(new) >= cap:
+                    break
+            if len(out) + len(new) >= cap:
+                break
+        if not new:
+            break
+        out += new
+        absorb(new)
+        if len(out) >= cap:
+            break
+    return out
+
+
 def ord_axioms(strs, formulas):
     uses_ord = any("ord" in info(f).syms for f in formulas)
     if not uses_ord:
@@ -381,32 +559,73 @@ def discharge(premises, goal, timeout_ms=10000, hints=None):
                 r3, out3, dt3 = cvc5_check(fs0, timeout_ms, want_model=True)
                 return dict(status="refuted", stage=0, backend="cvc5", time_s=time.time() - t0, model=out3 if r3 == "sat" else out)
         return dict(status="unknown", stage=0, time_s=time.time() - t0, detail=s.reason_unknown())
-    # stage 1: ground instances, two rounds of term harvesting
     base = ground + [neg]
     if hints:
         base = base + list(hints)
+    fsE = ground + quant + odd + [neg]
+    fsE = fsE + term_axioms(ground + [neg])
+    seq = uses_seq(fsE)
     ints, strs = harvest(base)
-    inst = instantiate(quant, ints, strs)
-    # second round: terms created by the first-round instances, for the
-    # single-variable clauses only (keeps the instance count linear)
-    ints2, strs2 = harvest(base + inst)
-    if len(ints2) > len(ints) and len(ints2) <= 240:
-        new_ints = [t for t in ints2 if t.get_id() not in set(x.get_id() for x in ints)]
-        one = [q for q in quant if q.num_vars() == 1 and q.var_sort(0) == INT]
-        inst = inst + instantiate(one, new_ints, strs)
-    fs = base + inst + ord_axioms(strs, base + inst)
-    fs = fs + term_axioms(fs)
-    seq = uses_seq(fs)
-    r, s, dt = check(fs, min(timeout_ms, 2000 if seq else 8000))
-    if r == z3.unsat:
-        return dict(status="proved", stage=1, backend="z3", time_s=time.time() - t0, instances=len(inst))
-    if seq:
-        r1, out1, dt1 = cvc5_check(fs, timeout_ms)
-        if r1 == "unsat":
-            return dict(status="proved", stage=1, backend="cvc5", time_s=time.time() - t0, instances=len(inst))
-    # stage 2: with quantifiers
-    left = max(1000, min(timeout_ms, 5000 if seq else timeout_ms))
-    r2, s2, dt2 = check(ground + quant + odd + [neg] + ord_axioms(strs, ground + [neg]), left)
+    estimate = 0
+    for q in quant:
+        n = 1
+        for j in range(q.num_vars()):
+            n *= len(ints) if q.var_sort(j) == INT else max(1, len(strs))
+        estimate += n
+
+    def stage_e(budget):
+        # z3 e-matching on the quantified premises (MBQI off): goal-directed
+        # instantiation modulo equalities.  unsat = proved; anything else = nothing.
+        rE, sE, dtE = check(fsE, min(timeout_ms, budget), auto_config=False, **{"smt.mbqi": False})
+        if rE == z3.unsat:
+            return dict(status="proved", stage="e", backend="z3", time_s=time.time() - t0)
+        return None
+
+    state = {}
+
+    def stage_1():
+        # explicit ground instances over the obligation's own terms (bounded)
+        inst = instantiate(quant, ints, strs, cap=4000)
+        ints2, strs2 = harvest(base + inst)
+        if len(ints2) > len(ints) and len(ints2) <= 140:
+            have = set(x.get_id() for x in ints)
+            new_ints = [t for t in ints2 if t.get_id() not in have]
+            one = [q for q in quant if q.num_vars() == 1 and q.var_sort(0) == INT]
+            inst = inst + instantiate(one, new_ints, strs)
+        fs = base + inst + ord_axioms(strs, base + inst)
+        fs = fs + term_axioms(fs)
+        r, s, dt = check(fs, min(timeout_ms, 2000 if seq else 5000))
+        state["r"], state["s"] = r, s
+        if r == z3.unsat:
+            return dict(status="proved", stage=1, backend="z3", time_s=time.time() - t0, instances=len(inst))
+        if seq:
+            r1, out1, dt1 = cvc5_check(fs, timeout_ms)
+            if r1 == "unsat":
+                return dict(status="proved", stage=1, backend="cvc5", time_s=time.time() - t0, instances=len(inst))
+            rEc, outE, dtEc = cvc5_check(fsE, timeout_ms)
+            if rEc == "unsat":
+                return dict(status="proved", stage="e", backend="cvc5", time_s=time.time() - t0)
+        return None
+
+    # adaptive: obligations sharing their quantified premises tend to need the same
+    # stage; remember where e-matching failed and skip it there
+    gkey = hash(tuple(sorted(q.get_id() for q in quant)))
+    e_fail = _E_FAILS.get(gkey, 0)
+    if estimate <= 2500:
+        order = [stage_1, lambda: stage_e(3000)]
+    elif e_fail >= 2:
+        order = [stage_1, lambda: stage_e(2000)]
+    else:
+        order = [lambda: stage_e(4000), stage_1]
+    for st in order:
+        res = st()
+        if res is not None:
+            if res["stage"] == 1 and estimate > 2500:
+                _E_FAILS[gkey] = e_fail + 1
+            return res
+    r, s = state.get("r"), state.get("s")
+    # stage 2: with quantifiers and MBQI: a `sat` here is a genuine counter-model
+    r2, s2, dt2 = check(ground + quant + odd + [neg] + ord_axioms(strs, ground + [neg]), min(timeout_ms, 3000))
     if r2 == z3.unsat:
         return dict(status="proved", stage=2, backend="z3", time_s=time.time() - t0)
     if r2 == z3.sat:
